@@ -1,4 +1,5 @@
 import MiniconfVerif.Model.PackedDriver
+import MiniconfVerif.Model.PathDriver
 
 open MiniconfVerif
 
@@ -8,6 +9,7 @@ def handle (line : String) : String :=
   | stream :: id :: args =>
     let out := match stream with
       | "pk" => PackedDriver.run args
+      | "st" => PathDriver.run args
       | _ => "bad-op"
     s!"{id} {out}"
   | _ => "? bad-op"
